@@ -5,7 +5,8 @@
    stop source.  The consumer runs inline in every completion, as reduce_stream does.  The number of
    elements, every outcome and every timing are chosen by the schedule: forall sched covers them.
    p_fix_start = false: next-op start() as it was before commit 6e8955a (finding 9);
-   p_fix_signal = false: handle_signal() as it is (reads stream_ of the receiver it has destroyed).
+   p_fix_signal = false: handle_signal() as it was before the repair of finding 9b (it read stream_ of
+   the receiver it had just destroyed); /repo now corresponds to p_fix_start = p_fix_signal = true.
    final p sched = the state after running schedule sched from init p. *)
 From Coq Require Import List Bool Arith.
 From V Require Import Base.Sched Proto.StopImmediatelyDefs Proto.StopImmediatelyProofs.
@@ -95,7 +96,7 @@ Theorem C13_stopimm_no_touch_after_destroy_refuted_start :
 Proof. exact no_touch_after_destroy_refuted_start. Qed.
 Print Assumptions C13_stopimm_no_touch_after_destroy_refuted_start.
 
-(* ... and for handle_signal() as it is *)
+(* ... and for handle_signal() as it was (finding 9b) *)
 Theorem C13_stopimm_no_touch_after_destroy_refuted_signal :
   exists sched,
     let c := run step sched (init {| p_fix_start := true; p_fix_signal := false; p_stop := true |}, []) in
